@@ -57,7 +57,39 @@ def long_case(rng, L=None, reverse=False):
     return c
 
 
+def interleaved_case(rng):
+    """many root children whose token sets cross one another: n tokens dealt at random to m groups, every group a root
+    child (a flat constituent, or a bare token when it has one token), often below an outer clause that spans the whole
+    sentence - the order in which the loop meets the children, which of them are already attached, and which neighbours
+    meet where, all matter here"""
+    n = rng.randint(6, 12)
+    m = rng.randint(3, 6)
+    owner = [rng.randrange(m) for _ in range(n)]
+    outer = rng.random() < 0.7
+    if outer:
+        owner[0] = owner[-1] = 0
+    groups = {}
+    for i, g in enumerate(owner):
+        groups.setdefault(g, []).append(i + 1)
+    kids = []
+    for g, nums in sorted(groups.items()):
+        leaves = [mk_leaf(k, rng.choice(["NN", "VV", "ART"]), rng.choice(["a", "b", "c"]), "--", "--", "--") for k in nums]
+        if len(leaves) == 1 and rng.random() < 0.6:
+            kids.append(leaves[0])
+        else:
+            if len(leaves) > 2 and rng.random() < 0.4:
+                # some structure inside the group
+                inner = mk_node(rng.choice(["NP", "PP"]), leaves[:2], edge="--", lemma="--", morph="--")
+                leaves = [inner] + leaves[2:]
+            kids.append(mk_node(["S", "NP", "VP", "PP", "AP", "CS"][g % 6], leaves, edge="--", lemma="--", morph="--"))
+    rng.shuffle(kids)
+    t = mk_node("VROOT", kids, edge="--", lemma="--", morph="--")
+    return ra_case(t, "interleaved-root-children")
+
+
 def gen(seed, tier, scale):
+    for i in range((1500 if tier == "quick" else 30000) * scale):
+        yield 700000 + i, interleaved_case(case_rng(seed, ID, 700000 + i))
     for i in range((3 if tier == "quick" else 20) * scale):
         yield 600000 + i, long_case(case_rng(seed, ID, 600000 + i), L=[1006, 520, None][i % 3], reverse=(i % 3 == 0))
     idx = 0
